@@ -131,9 +131,10 @@ impl Ctx {
         self.known = None;
     }
 
-    /// True when the current case has used up its failure budget.
+    /// True when the current case has used up its failure budget. Known-finding hits do not
+    /// stop a case (only their printing is capped): an unknown failure may still be ahead.
     pub fn done(&self) -> bool {
-        self.case_fails >= self.max_fail || self.case_known >= self.max_fail
+        self.case_fails >= self.max_fail
     }
 
     /// Emit one witness line.
